@@ -13,8 +13,8 @@ import (
 )
 
 type ruleLoop struct {
-	Proc     *ssa.Function // the Processor.ProcessEvent implementation
-	LoopFn   *ssa.Function // function containing the call of Rule.Action
+	Proc     *ssa.Function       // the Processor.ProcessEvent implementation
+	LoopFn   *ssa.Function       // function containing the call of Rule.Action
 	LoopCall ssa.CallInstruction // call of LoopFn in Proc (nil when LoopFn == Proc)
 	Action   *ssa.Call
 	Slice    ssa.Value // the slice whose elements' Action is called, in LoopFn
